@@ -40,6 +40,35 @@ def run_controls():
     o = Obligations('CTL')
     dead_stores(ctx, o, 'ctl.dead')
     expect('dead', o, 'DEAD', '`y`')
+    from .rules import sweeps, order, ranks
+    o = Obligations('CTL')
+    sweeps.fwd_default(ctx, o, ['ctl2.'])
+    expect('fwd-default', o, 'FWD-default', '`descriptor` reaches ctl2.callee')
+    if any(x.verdict == VIOLATED and x.func == 'ctl2.keeps_default' for x in o.items):
+        bad.append('fwd-default fired on a call that forwards the parameter')
+    n += 1
+    o = Obligations('CTL')
+    sweeps.par_live(ctx, o, ['ctl2.'])
+    expect('par-live', o, 'PAR-live', 'parameter `weighting`')
+    expect('par-live-undocumented', o, 'PAR-live', 'parameter `verbose`', want=False)
+    o = Obligations('CTL')
+    order.report(ctx, o, ['ctl2.'])
+    expect('ord-ret', o, 'ORD-RET', 'values returned together')
+    expect('ord-index', o, 'ORD-INDEX', 'means[inv_sorted]')
+    if any(x.verdict == VIOLATED and x.func == 'ctl2.unique_inverse_ok' for x in o.items):
+        bad.append('ORD fired on the correct inverse-permutation idiom')
+    n += 1
+    o = Obligations('CTL')
+    ranks.tie_averaged(ctx, o, 'ctl2.ordinal_ranks')
+    expect('rank-ordinal', o, 'RANK', 'tie-averaged')
+    o = Obligations('CTL')
+    ranks.tie_averaged(ctx, o, 'ctl2.average_ranks')
+    expect('rank-average', o, 'RANK', 'tie-averaged', want=False)
+    from .props.c20 import strip_misuse
+    o = Obligations('CTL')
+    strip_misuse(ctx, o)
+    expect('strip-prefix', o, 'API', 'segment.lstrip(prefix)')
+    expect('strip-charset', o, 'API', "line.strip(' \\n')", want=False)
     for extra in _extra_controls:
         extra(ctx, expect)
     return n, bad
